@@ -195,7 +195,7 @@ def gen_history(rng, spec, roots, refs, opts):
                     steps.append({'op': 'snapshot', 'chain': c2, 'light': True, 'ri': live[c2]})
                 elif r < opts.get('p_inspect', 0.2) + opts.get('p_force', 0.0) + opts.get('p_fault', 0.0):
                     t = rng.choice(names)
-                    kinds = ['raise_before', 'raise_after_log']
+                    kinds = ['raise_before', 'raise_after_log', 'abort_after_log']
                     if refs[live[c2]].tasks[t]['spec']['data_kind'] == 'generator':
                         kinds = ['raise_in_generator', 'raise_in_generator', 'raise_before']
                     steps.append({'op': 'arm_fault', 'chain': c2, 'task': t, 'kind': rng.choice(kinds), 'ri': live[c2]})
@@ -312,7 +312,7 @@ class Model:
                 return False
         runs.append((o.ref_name, t['key'], tuple(sorted(o.names))))
         faulty = fault_task is not None and fault_task[0] in o.names
-        if faulty and fault_task[1] == 'raise_before':
+        if faulty and fault_task[1] == 'raise_before':      # (`raise_after_log` / `abort_after_log`: the run has started when it fails)
             return False
         for target in t['read_targets']:
             if target in arg_targets:
@@ -690,7 +690,7 @@ def check_records(what, o, ch, ref, refs, latest, model, add, here, counters):
             wt = wref.tasks.get(lr['task']) or next((x for x in wref.tasks.values() if x['slug'] == lr['slug'] and x['key'] == lr['key']), None)
             exp_log = [{'lab_uid': lr['uid'], 'n': 1}, 0, {},
                        {'lab_uid': lr['uid'], 'mean': ['np', 'float64', 0.25], 'count': ['np', 'int64', 7], 'where': ['path', 'out/x'], 'shape': ['tuple', [2, 3]],
-                        'hist': ['map', [[3, 1], [12, 2]]], 'best': ['float', 'inf']},
+                        'hist': ['map', [[3, 1], [12, 2]]], 'best': ['float', 'inf'], 'note': 'to be continued\x85 \u2028é'},
                        {'lab_uid': lr['uid'], 'done': 1}, {'lab_uid': lr['uid'], 'done': 2, 'more': 5}, {'lab_uid': lr['uid'], 'n': 2}]
             if info.get('log') != exp_log:
                 add('C18', 'run_info_log', f'{here}: run info of {n} holds records {info.get("log")}, the latest run of this location added {exp_log}')
